@@ -15,7 +15,8 @@ ID = "C02"
 LEVEL = "exploration"
 TECHNIQUE = "differential property-based testing (five-stage vs single-cycle) + small-scope exhaustive enumeration over a hazard-complete instruction alphabet"
 RULE = ("programs x initial states: (a) ALL sequences up to the stated length over a 14-instruction hazard-complete "
-        "alphabet (exhaustive), (b) Hypothesis-generated programs (loops, call/return, ecalls, load-use, faults). Each is "
+        "alphabet (exhaustive), (b) Hypothesis-generated programs (loops, call/return, ecalls, load-use, faults), (c) the per-mnemonic boundary/aliasing "
+        "operand product of C01 as one-instruction programs (pipelined datapath vs behavior() of each instruction). Each is "
         "run in single-cycle mode and in five-stage mode (cap 8n+32 cycles); compared: retire order, registers at every "
         "retirement, ordered byte-level memory changes, output growth order, final registers/memory/output/exit code, "
         "instruction/branch/procedure counters, termination, fault address and state at the fault. non-trivial = the "
@@ -128,7 +129,16 @@ def check(case, stats):
         tags.add("store")
     tags.add("len:%s" % ("0" if n == 0 else "1-9" if n < 10 else "10-99" if n < 100 else "100+"))
     nontrivial = bool(mt["stalls"] or mt["flushes"] or had_ecall or s.end == "fault")
-    stats.count(case, nontrivial, tags, sample_tag=("alpha" if case.get("alpha") else "prog") + ":" + s.end)
+    if case.get("single"):
+        # one-instruction programs: non-trivial when the instruction has an architectural effect or faults
+        init = [0] * 32
+        for r, v in case["regs"].items():
+            if int(r):
+                init[int(r)] = v & 0xFFFFFFFF
+        nontrivial = bool(s.regs_after and s.regs_after[-1] != init) or bool(s.mem_changes) or s.end == "fault" or bool(s.out_growth) \
+            or (mt["flushes"] > 0)
+        tags.add("single-instruction:" + case["prog"][0][0])
+    stats.count(case, nontrivial, tags, sample_tag=("alpha" if case.get("alpha") else "single" if case.get("single") else "prog") + ":" + s.end)
 
 
 # ------------------------------------------------------------------------------------------------------------
@@ -167,6 +177,22 @@ def prog_case(max_len, max_steps):
     return rvprog.program_case(max_len).map(lambda c: dict(c, max=max_steps))
 
 
+def _as_prog(c):
+    """A C01 single-instruction case as a one-instruction program at address 0 (per-instruction datapath agreement)."""
+    return {"prog": [c["ins"]], "regs": c["regs"], "mem": c["mem"], "max": 4, "single": 1}
+
+
+def boundary_cases(op):
+    from vf.props import c01
+    for c in c01.boundary_cases(op):
+        yield _as_prog(c)
+
+
+def single_case(op):
+    from vf.props import c01
+    return c01.single_case(op).map(_as_prog)
+
+
 def corpus():
     return [
         alpha_case([3, 1, 4]), alpha_case([7, 11, 12, 11]), alpha_case([9, 11, 0, 8]), alpha_case([12, 3, 11, 0]),
@@ -184,7 +210,13 @@ def shards(tier, seed):
             items.append({"what": "alpha", "len": 4, "part": p, "parts": 4})
         for i in range(4):
             items.append({"what": "prog", "n": 300, "len": 14, "max": 200, "seed": seed * 1000 + i})
+        for i in range(4):
+            items.append({"what": "boundary", "ops": rv32.ALL_OPS[i::4]})
     else:
+        for i in range(16):
+            items.append({"what": "boundary", "ops": rv32.ALL_OPS[i::16]})
+        for i in range(46):
+            items.append({"what": "single", "ops": [rv32.ALL_OPS[i]], "n": 3000, "seed": seed * 1000 + 500 + i})
         for L in (1, 2, 3, 4):
             items.append({"what": "alpha", "len": L, "part": 0, "parts": 1})
         for p in range(32):
@@ -198,6 +230,15 @@ def shards(tier, seed):
 
 def run_shard(item, stats):
     km = core.known_matcher(ID, globals().get("known_match"))
+    if item["what"] == "boundary":
+        for op in item["ops"]:
+            core.run_cases(boundary_cases(op), check, stats, km)
+        stats.exhaustive_parts.append("per-mnemonic boundary/aliasing product as one-instruction programs (deterministic)")
+        return
+    if item["what"] == "single":
+        for j, op in enumerate(item["ops"]):
+            core.hyp_search(single_case(op), check, stats, item["n"], item["seed"] * 50 + j, km)
+        return
     if item["what"] == "alpha":
         core.run_cases(alpha_cases(item["len"], item["part"], item["parts"]), check, stats, km, distinct=True)
         stats.exhaustive_parts.append(f"all {len(ALPHABET)}^{item['len']} alphabet sequences of length {item['len']}")
